@@ -58,6 +58,15 @@ EAGER = {
 }
 
 
+def _ctx_isinstance(x, classes):
+    """opaque source positions are Context objects"""
+    if is_sym(x) and any(getattr(c, "name", "") == "Context" for c in classes):
+        txt = repr(x)
+        if "ctx_" in txt:
+            return True
+    return None
+
+
 _CACHE = {}
 
 
@@ -74,7 +83,7 @@ def eager_interp(repo, opaque_get_as_int=True, extra=None):
         s.update(extra)
     I.summaries = s
     I.call_hook = None
-    I.isinstance_hook = None
+    I.isinstance_hook = _ctx_isinstance
     I.attr_hook = None
     I.cellvars = {}
     return I
@@ -96,17 +105,25 @@ class Shapes:
         cls.attrs["text"] = PyFn(lambda I, args, kw: name, "XExpr.text")
         cls.attrs["__repr__"] = PyFn(lambda I, args, kw: name, "XExpr.__repr__")
         r = Rec(cls)
-        r.fields.update(ctx_start=sym.var(f"{name}.ctx_start", "any"), ctx_end=sym.var(f"{name}.ctx_end", "any"))
+        r.fields.update(ctx_start=sym.var(f"{name}.ctx_start", "obj"), ctx_end=sym.var(f"{name}.ctx_end", "obj"))
         return r
 
     def mk(self, cls, *args, **kw):
-        return self.I.instantiate(cls, list(args), kw)
+        r = self.I.instantiate(cls, list(args), kw)
+        self.n = getattr(self, "n", 0) + 1
+        r.fields["ctx_start"] = sym.var(f"tok{self.n}.ctx_start", "obj")
+        r.fields["ctx_end"] = sym.var(f"tok{self.n}.ctx_end", "obj")
+        return r
+
+    def with_text(self, r, text):
+        r.fields["text"] = PyFn(lambda I, args, kw: text, "text")
+        return r
 
     def symbol(self, name, label=False):
-        return self.mk(self.types("Symbol"), None, None, name, label)
+        return self.with_text(self.mk(self.types("Symbol"), None, None, name, label), name)
 
     def number(self, rep, value, is_valid_label=False):
-        return self.mk(self.types("Number"), None, None, rep, value, is_valid_label)
+        return self.with_text(self.mk(self.types("Number"), None, None, rep, value, is_valid_label), rep)
 
     def paren(self, inner, o="(", c=")"):
         return self.mk(self.types("ParenthesizedExpression"), None, None, inner, o, c)
